@@ -21,7 +21,7 @@ EXPLANATION = (
     ' Third round: read_auto hands the whole line to the reader (no cut at a marker); every node record read yields a node carrying its category.'
     ' Fourth round: normalize / denormalize may be table-driven, a membership test of the word in a text is a substring test; the line is handed to the reader as written (no conversion of the whole line).'
     ' Fifth round: read_auto yields every tree line it parses; all ways a writer formats one record kind are the same sequence of fields.'
-)
+    ' Sixth and seventh round: R8.6 templates / module state, R8.7 feature members on both feature classes, atoms built from the text read, the AUTO reader chosen by how the file name ends.')
 TRUSTED = ['CPython ast', 'sa/pysym.py path walker', 'rule table DESIGN.md C08']
 
 AUTO = 'depccg/printer/auto.py'
